@@ -574,7 +574,8 @@ def run(chk: Check):
     from .c08 import rule_l2, rule_l4
     rule_l4(chk, ix)
     rule_l2(chk, ix)
-    from .c09 import rule_k1, rule_k6
+    from .c09 import rule_k1, rule_k4, rule_k6
+    rule_k4(chk, constfold.fold_tokenize(), ix)   # the indentation measure decides which dedents are inconsistent
     rule_k6(chk, constfold.fold_tokenize(), ix, False)
     rule_k1(chk, constfold.fold_tokenize(), False)   # what the scanner accepts as a lexeme / line joiner
     from .. import typed
